@@ -151,7 +151,7 @@ func netReplay(i int, seed int64, raw json.RawMessage) hx.Result {
 		panic(fmt.Errorf("c16: cannot listen on %s: %v", addr, err))
 	}
 	defer srv.close()
-	opts := []fclient.ClientOption{fclient.WithAllowDenyNetworks(allow, deny), fclient.WithSkipVerify(true), fclient.WithTimeout(40 * time.Second)}
+	opts := []fclient.ClientOption{fclient.WithAllowDenyNetworks(allow, deny), fclient.WithSkipVerify(true), fclient.WithTimeout(reqTimeout)}
 	target := net.JoinHostPort(addr, strconv.Itoa(srv.port))
 	switch r.Reach {
 	case "literal":
@@ -165,14 +165,26 @@ func netReplay(i int, seed int64, raw json.RawMessage) hx.Result {
 	default:
 		panic("unknown reach " + r.Reach)
 	}
+	hangKey := "C16/netpolicy/e2e/reach=" + r.Reach + "/request-hangs"
+	if tripped(hangKey) {
+		return hx.Result{OK: false, Key: hangKey, What: "not run: earlier requests of this kind did not return within " + reqTimeout.String()}
+	}
 	cl := fclient.NewClient(opts...)
 	req, err := http.NewRequest("GET", "matrix://"+target+"/_matrix/federation/v1/version", nil)
 	if err != nil {
 		panic(err)
 	}
-	ctx, cancel := context.WithTimeout(context.Background(), 60*time.Second)
+	ctx, cancel := context.WithTimeout(context.Background(), reqTimeout+5*time.Second)
 	defer cancel()
+	t0 := time.Now()
 	resp, rerr := cl.DoHTTPRequest(ctx, req)
+	if rerr != nil && time.Since(t0) >= reqTimeout {
+		// every stub answers at once and every address is loopback: a request that runs into the time-out hangs
+		// inside the library (a connection that is refused by the policy fails immediately)
+		noteHang(hangKey)
+		return hx.Result{OK: false, Key: hangKey,
+			What: fmt.Sprintf("Client request (%s, reached as %s, %s) did not return within %s: %v", where, r.Reach, target, reqTimeout, rerr)}
+	}
 	status := 0
 	if resp != nil {
 		status = resp.StatusCode
